@@ -300,4 +300,85 @@ Section KW.
       replace (S k0 - k0)%nat with 1%nat by lia. cbn [firstn kw_acc]. rewrite T. reflexivity.
   Qed.
 
+  (* determinism: a word that completes cannot have a prefix that is refused *)
+  Lemma kw_acc_no_reject st v x :
+    kw_acc st v = Some x ->
+    forall p k0 k a b, is_prefix p v = true -> kw_run st p k0 <> RunReject k a b.
+  Proof.
+    revert st; induction v as [|c v IH]; intros st H p k0 k a b Hp; [discriminate|].
+    destruct p as [|d p]; [cbn; discriminate|].
+    cbn [is_prefix] in Hp. apply andb_prop in Hp as [Hd Hp]. apply N.eqb_eq in Hd. subst d.
+    cbn [kw_acc] in H. cbn [kw_run].
+    destruct (kw_trans st c) as [s1|s1|x1|a0 b0|]; try discriminate.
+    - eapply IH; eauto.
+  Qed.
+
+  Lemma kw_acc_start_no_reject v x :
+    kw_acc_start v = Some x ->
+    forall p k a b, is_prefix p v = true -> kw_run_start p <> RunReject k a b.
+  Proof.
+    intros H p k a b Hp. destruct v as [|c v]; [discriminate|].
+    destruct p as [|d p]; [cbn; discriminate|].
+    cbn [is_prefix] in Hp. apply andb_prop in Hp as [Hd Hp]. apply N.eqb_eq in Hd. subst d.
+    cbn [kw_acc_start] in H. cbn [kw_run_start].
+    destruct (kw_trans ek c) as [s1|s1|x1|a0 b0|]; try discriminate.
+    eapply kw_acc_no_reject; eauto.
+  Qed.
+
+  Lemma kw_run_start_acc w k x :
+    kw_run_start w = RunAccept k x ->
+    (1 <= k <= List.length w)%nat /\ kw_acc_start (firstn k w) = Some x.
+  Proof.
+    destruct w as [|c w]; [discriminate|]. cbn [kw_run_start].
+    destruct (kw_trans ek c) as [s1|s1|x1|a0 b0|] eqn:T; try discriminate.
+    intros H. apply kw_run_acc in H as [Hk Ha]. split; [cbn [List.length]; lia|].
+    destruct k as [|k]; [lia|]. cbn [firstn kw_acc_start]. rewrite T.
+    replace (S k - 1)%nat with k in Ha by lia. exact Ha.
+  Qed.
+
+  Lemma kw_run_firstn st w k0 k a b :
+    kw_run st w k0 = RunReject k a b ->
+    kw_run st (firstn (S (k - k0)) w) k0 = RunReject k a b.
+  Proof.
+    revert st k0; induction w as [|c w IH]; intros st k0 H; [discriminate|].
+    cbn [kw_run] in H. cbn [firstn kw_run].
+    destruct (kw_trans st c) as [s1|s1|x1|a0 b0|] eqn:T; try discriminate.
+    - assert (S k0 <= k)%nat.
+      { clear - H. revert s1 k0 H. induction w as [|d w IHw]; intros s1 k0 H; [discriminate|].
+        cbn [kw_run] in H. destruct (kw_trans s1 d); try discriminate.
+        - apply IHw in H. lia.
+        - injection H as <- _ _. lia. }
+      replace (k - k0)%nat with (S (k - S k0)) by lia. apply IH. exact H.
+    - exact H.
+  Qed.
+
+  Lemma kw_run_start_firstn w k a b :
+    kw_run_start w = RunReject k a b ->
+    kw_run_start (firstn (S k) w) = RunReject k a b.
+  Proof.
+    destruct w as [|c w]; [discriminate|]. cbn [kw_run_start firstn].
+    destruct (kw_trans ek c) as [s1|s1|x1|a0 b0|] eqn:T; try discriminate.
+    intros H. pose proof (kw_run_firstn _ _ _ _ _ _ H) as G.
+    assert (1 <= k)%nat.
+    { clear - H. revert s1 H. generalize 1%nat as k0. induction w as [|d w IHw]; intros k0 s1 H; [discriminate|].
+      cbn [kw_run] in H. destruct (kw_trans s1 d); try discriminate.
+      - apply IHw in H. lia.
+      - injection H as <- _ _. lia. }
+    replace k with (S (k - 1)) at 1 by lia. exact G.
+  Qed.
+
+  (* straight-line code that cannot fail when the step stack holds at least [depth] entries *)
+  Fixpoint straight_ok (depth : nat) (l : list stmt) : bool :=
+    match l with
+    | [SRetNil] => true
+    | SSetStep _ :: r => straight_ok depth r
+    | SPush _ :: r => straight_ok (S depth) r
+    | SPushCur :: r => straight_ok (S depth) r
+    | SPop :: r => match depth with O => false | S d => straight_ok d r end
+    | SFound _ _ :: r => straight_ok depth r
+    | SAddCur _ :: r => straight_ok depth r
+    | _ => false
+    end.
+
 End KW.
+
